@@ -29,7 +29,7 @@ JudgeLine(line) ==
   /\ Judge(line)
   /\ IF line.obs.kind # "ok" THEN TRUE
      ELSE
-       LET d == Denote(line.prog, line.doc, {})
+       LET d == Den(line, {})
            rep == line.obs.report IN
        /\ Relate(line.i, "full", d.kind = "ok" /\ Pub(d.tree) = line.obs.ftree)
        /\ IF rep.kind # "ok"
